@@ -540,11 +540,14 @@ class Interp:
             return BytePtr(p.obj, p.path[:-1] + (p.path[-1] + n // p.scale,), p.scale)
         if n == 0 and (not p.path or not isinstance(p.path[-1], int)):
             return p
+        if p.path and isinstance(p.path[-1], tuple) and p.path[-1][0] == '#past':
+            k = p.path[-1][1] + n
+            return Ptr(p.obj, p.path[:-1]) if k == 0 else Ptr(p.obj, p.path[:-1] + (('#past', k),))
         if not p.path or not isinstance(p.path[-1], int):
-            # pointer to a single object treated as element 0 of a one-element array
+            # pointer to a single object: p + n is representable (one past the end), not dereferenceable
             if n == 0:
                 return p
-            return Ptr(p.obj, p.path + ('#off', n)) if False else self._bad_padd(p, n)
+            return Ptr(p.obj, p.path + (('#past', n),))
         return Ptr(p.obj, p.path[:-1] + (p.path[-1] + n,))
 
     def _bad_padd(self, p, n):
@@ -991,6 +994,8 @@ class Interp:
             if isinstance(b, int) and b == 0: b = None
             r = (a == b) if not (a is None or b is None) else (a is None and b is None)
             return int(r if op == '==' else not r)
+        if op in ('+', '-') and a is None and isinstance(b, int) and b == 0:
+            return None       # NULL + 0 (formally undefined in C, universal in practice: empty arrays)
         if op in ('+', '-') and isinstance(a, Ptr) and not isinstance(b, Ptr):
             b = self.concretize(b, 'padd')
             if not isinstance(b, int):
